@@ -32,7 +32,7 @@ PROBES = ["copy_of_copy", "nice_on_scale_with_living_relative",
           "pool_size_5", "drop_then_use_relative", "domain_on_aliased", "range_on_aliased",
           "clamp_on_aliased", "magnitude_tiny", "magnitude_huge", "rejected_call_raised",
           "readonly_op", "unobserved_step", "range_list_edited_in_place_and_passed_again",
-          "foreign_library_activity", "constructed_with_arguments"]
+          "foreign_library_activity", "constructed_with_arguments", "getter_to_setter_transfer"]
 
 RULE = (
     "Each run draws (from one PRNG seeded by sha256(VERIF_SEED:scale:i)) a magnitude regime "
@@ -143,6 +143,8 @@ def gen_plan(rng, tier):
                         rng.random() < 0.4])
         elif r < copy_p + nice_p + 0.05:
             ops.append(["interp", i])
+        elif r < copy_p + nice_p + 0.08 and pool > 1:
+            ops.append([rng.choice(["domain_from", "range_from"]), i, rng.randrange(pool)])
         elif r < copy_p + nice_p + 0.22:
             d = _pair(rng, lo, hi, style)
             if rng.random() < 0.03:
@@ -512,6 +514,17 @@ def _run(plan):
                 # constructed and exported; no scale of the pool is involved
                 bump("probe:foreign_library_activity")
                 _foreign_activity(op[2])
+            elif kind in ("domain_from", "range_from"):
+                # getter-to-setter transfer: one scale is given what another one reports
+                src = pool[op[2] % len(pool)]
+                if kind == "domain_from":
+                    target.domain(src.domain())
+                else:
+                    target.range(src.range())
+                    # the list now belongs to two scales: the caller must not edit it again
+                    passed_range[id(target)] = None
+                    passed_range[id(src)] = None
+                bump("probe:getter_to_setter_transfer")
             elif kind == "chain":
                 # the setters return the scale: one chained expression
                 got = target.domain(list(op[2])).range(list(op[3])).clamp(op[4])
@@ -549,7 +562,8 @@ def _run(plan):
             touched.add(id(target))
         if new_scale is not None:
             touched.add(id(new_scale))
-        if aliased and kind in ("domain", "range", "range_reuse", "clamp", "nice", "bad_nice", "bad_domain", "chain", "interp"):
+        if aliased and kind in ("domain", "range", "range_reuse", "clamp", "nice", "bad_nice", "bad_domain", "chain", "interp",
+                                "domain_from", "range_from"):
             bump("fault:alias:fired")
             bump("fault:alias:configured")
             if kind in ("domain", "range", "clamp"):
@@ -558,7 +572,7 @@ def _run(plan):
             bump("probe:pool_size_5")
         v = None
         if outcome.startswith("raise") and kind in ("domain", "range", "range_reuse", "clamp", "nice", "copy", "new",
-                                                    "chain", "interp"):
+                                                    "chain", "interp", "domain_from", "range_from"):
             # a documented call on documented arguments must not raise ... unless
             # the scale is degenerate (division by zero is outside the property)
             d = list(target.domain()) if target is not None else [0, 1]
